@@ -139,21 +139,30 @@ func (b *BinaryExpression) SQL() string {
 	if b == nil {
 		return ""
 	}
-	left := exprSQL(b.Left)
-	right := exprSQL(b.Right)
 	op := b.Operator
 	if b.CustomOp != nil {
 		op = b.CustomOp.String()
 	}
-
 	upperOp := strings.ToUpper(op)
 
-	// Handle IS NULL / IS NOT NULL (right side is NULL literal)
+	// NOT EXISTS (...) is represented as a binary expression without a right operand
+	if b.Right == nil && upperOp == "NOT" {
+		return "NOT " + exprSQL(b.Left)
+	}
+
+	prec := sqlOperatorPrecedence(upperOp)
+	left := operandSQL(b.Left, prec, false)
+
+	// Handle IS NULL / IS NOT NULL
 	if upperOp == "IS NULL" || upperOp == "IS NOT NULL" {
+		if b.Not && upperOp == "IS NULL" {
+			upperOp = "IS NOT NULL"
+		}
 		return fmt.Sprintf("%s %s", left, upperOp)
 	}
 
-	// Handle special operators like LIKE, ILIKE, SIMILAR TO
+	right := operandSQL(b.Right, prec, true)
+
 	if b.Not {
 		switch upperOp {
 		case "LIKE", "ILIKE", "SIMILAR TO":
@@ -164,6 +173,57 @@ func (b *BinaryExpression) SQL() string {
 	}
 
 	return fmt.Sprintf("%s %s %s", left, op, right)
+}
+
+// sqlOperatorPrecedence returns the binding strength of a binary operator as the parser sees it.
+func sqlOperatorPrecedence(upperOp string) int {
+	switch upperOp {
+	case "OR":
+		return 1
+	case "AND":
+		return 2
+	case "=", "<>", "!=", "<", ">", "<=", ">=", "LIKE", "ILIKE", "SIMILAR TO", "REGEXP", "RLIKE",
+		"IS NULL", "IS NOT NULL", "~", "~*", "!~", "!~*":
+		return 4
+	case "||":
+		return 5
+	case "+", "-":
+		return 6
+	case "*", "/", "%":
+		return 7
+	default:
+		return 8
+	}
+}
+
+// operandSQL renders an operand, adding parentheses when it binds looser than its parent.
+func operandSQL(e Expression, parentPrec int, right bool) string {
+	s := exprSQL(e)
+	p := 9
+	switch c := e.(type) {
+	case *BinaryExpression:
+		if c == nil {
+			return s
+		}
+		op := c.Operator
+		if c.CustomOp != nil {
+			op = c.CustomOp.String()
+		}
+		p = sqlOperatorPrecedence(strings.ToUpper(op))
+		if (c.Not && p != 4) || (c.Right == nil && strings.ToUpper(op) == "NOT") {
+			p = 3
+		}
+	case *UnaryExpression:
+		if c != nil && c.Operator == Not {
+			p = 3
+		}
+	case *BetweenExpression, *InExpression:
+		p = 4
+	}
+	if p < parentPrec || (p == parentPrec && (right || parentPrec == 4)) {
+		return "(" + s + ")"
+	}
+	return s
 }
 
 func (u *UnaryExpression) SQL() string {
